@@ -26,6 +26,22 @@ func classifyCase(sr *SearchRun) {
 	if hasMerge {
 		Ev.Class("case:has-merge")
 	}
+	for _, m := range sr.World.MergeLog {
+		if m.Combined > 0 {
+			Ev.Class("case:merge-combined-blocks")
+			break
+		}
+	}
+	for _, f := range sr.Files {
+		if f.Meta.BlockFilterRegionSize > 4<<20 {
+			Ev.Class("case:multi-chunk-filter-region")
+		}
+		for _, b := range f.Blocks {
+			if b.Meta.BloomFilterSize > 4<<20 {
+				Ev.Class("case:oversize-filter-section")
+			}
+		}
+	}
 	if hasRestart {
 		Ev.Class("case:has-restart")
 	}
@@ -210,6 +226,7 @@ func sameWorld(before, after []*FileInfo) *Violation {
 }
 
 var searchOpts = HistOpts{MaxSteps: 10, MaxRows: 6, Merge: true, Restart: true, Ext: true, FS: true}
+var mergeHeavyOpts = HistOpts{MaxSteps: 12, MaxRows: 4, Merge: true, Restart: true, Ext: true, FS: true, MergeHeavy: true}
 
 func runSearchProperty(judge func(*SearchRun) *Violation) func(SearchCase) *Violation {
 	return func(c SearchCase) *Violation {
@@ -231,6 +248,7 @@ func TestC01(t *testing.T) {
 		"bloom filters make a missing index entry only probabilistically visible; half the cases use FPR<=1e-6",
 	}
 	runChecks(t, "search", 250, 8000, genSearchCase(searchOpts, 10, true), runSearchProperty(judgeC01))
+	runChecks(t, "merged", 150, 5000, genSearchCase(mergeHeavyOpts, 10, true), runSearchProperty(judgeC01))
 	bigFilterPhase(t, judgeC01)
 	fmt.Print()
 }
@@ -239,4 +257,5 @@ func TestC02(t *testing.T) {
 	Ev.Rule = "same generated space as C01. Oracle: every returned row is a stored (nil-acked) row matching bloom AND regex under the reference semantics, at most once; without prefilter result == matching stored rows exactly; with prefilter, per block (membership read back through MetaStore + ReadDataBlockRowData) matching rows are all-or-none, blocks whose metadata satisfies the tree (exists-semantics, saturated bounds open) are all returned, blocks lacking referenced metadata return nothing; stored world unchanged by queries. Non-trivial: exact phase: 0 < matching < stored; prefilter phase: some block holds matching rows and its metadata does not satisfy the prefilter. Distinct by hash(query, matching ids, layout)."
 	Ev.Assumptions = []string{"same undecidable-row exemption as C01", "block membership is read with the library's public read helpers"}
 	runChecks(t, "search", 250, 8000, genSearchCase(searchOpts, 10, true), runSearchProperty(judgeC02))
+	runChecks(t, "merged", 150, 5000, genSearchCase(mergeHeavyOpts, 10, true), runSearchProperty(judgeC02))
 }
